@@ -235,6 +235,36 @@ void vs_reset(void)
   memset(&vs_counts, 0, sizeof(vs_counts));
 }
 
+// Cheap reset for engines that run millions of tiny cases in one process (DRY):
+// only what a case can have touched is cleared.
+void vs_reset_light(void)
+{
+  static size_t tombstones_estimate = 0;
+  vs_sh->nrec = 0;
+  vs_sh->dropped = 0;
+  vs_sh->fidx[0] = vs_sh->fidx[1] = 0;
+  vs_sh->nfaults = 0;
+  vs_sh->child_loop = 0;
+  vs_sh->child_last_probe = -1;
+  if (g_dry_nextfd > 1000) {
+    size_t n = (size_t) (g_dry_nextfd < FD_MAX ? g_dry_nextfd : FD_MAX) - 1000;
+    memset(g_fd + 1000, 0, n);
+    memset(g_fd_ever + 1000, 0, n);
+  }
+  g_dry_nextfd = 1000;
+  tombstones_estimate += 16;
+  if (g_heap_blocks != 0 || tombstones_estimate > 4096) {
+    memset(g_heap, 0, sizeof(g_heap));
+    g_heap_blocks = g_heap_bytes = 0;
+    tombstones_estimate = 0;
+  }
+  g_nchild = 0;
+  g_nsig = 0;
+  g_nviol = 0;
+  g_side = VS_PARENT;
+  memset(&vs_counts, 0, sizeof(vs_counts));
+}
+
 void vs_trace(int on) { g_trace = on; }
 void vs_dry(int on) { g_dry = on; }
 
